@@ -192,6 +192,12 @@ def positions_clause(rep, cov, tier):
             docs.append((rec["edits"], relayout(text, rng)))
     bs = 12
     batches = [docs[i:i + bs] for i in range(0, len(docs), bs)]
+    # large documents (within the 64 KiB of C04): long sums, deep parentheses and IF nests, thousands of statements and
+    # variables, a long non-ASCII comment - the editor and the command line are the same compiler on the same text,
+    # whatever its size; one server per document
+    large = large_documents()
+    docs += large
+    batches += [[d] for d in large]
 
     def lsp_batch(b):
         msgs = []
@@ -228,6 +234,24 @@ def positions_clause(rep, cov, tier):
             rep.add("positions:lsp-differs-from-check:%s" % kind, labels={"positions"}, detail={"edits": edits, "lsp": got, "check": b},
                     replay={"text": text})
     cov["position_documents_compared"] = n
+
+
+def large_documents():
+    head = "PROGRAM main\nVAR total : INT; flag : BOOL; END_VAR\n"
+    tail = "missing := total;\nEND_PROGRAM\n"
+    out = []
+    for n in (50, 100, 200, 300, 400):
+        out.append((["large:sum", n], head + "total := " + " + ".join(["1"] * n) + ";\n" + tail))
+    for n in (12, 40, 80, 120, 200):
+        out.append((["large:parentheses", n], head + "total := " + "(" * n + "1" + ")" * n + ";\n" + tail))
+    for n in (12, 30, 60, 100):
+        out.append((["large:if", n], head + "IF flag THEN\n" * n + "total := 1;\n" + "END_IF;\n" * n + tail))
+    for n in (500, 2000):
+        out.append((["large:statements", n], head + "total := total + 1;\n" * n + tail))
+    for n in (200, 1000):
+        out.append((["large:variables", n], "PROGRAM main\nVAR total : INT; " + " ".join("v%d : INT;" % i for i in range(n)) + " END_VAR\n" + tail))
+    out.append((["large:comment", 30000], head + "(* " + "\u00e9\u20ac " * 10000 + "*)\n" + tail))
+    return out
 
 
 def lspdrv_obs(res):
